@@ -5,6 +5,7 @@ From Coq Require Import NArith List Bool.
 Require Import SDS.Model.Mach SDS.Model.Bits SDS.Model.Raw SDS.Model.IntVec SDS.Model.BitVec SDS.Model.Ser.
 Require Import SDS.Spec.Stream SDS.Check.Common.
 Require SDS.Model.RL.      (* qualified *)
+Require SDS.Spec.SeqSpec SDS.Model.Hist.   (* qualified: operation histories *)
 Import ListNotations.
 Open Scope N_scope.
 
@@ -20,7 +21,37 @@ Inductive recipe :=
 | RRank (len : N) (words : list N)          (* RankSupport::new of that bitvector *)
 | RSel (compl : bool) (len : N) (words : list N)
 | RBV (len : N) (words : list N) (subset : N)
-| RRL (len : N) (runs : list (N * N)).     (* RLBuilder: try_set(start, length).unwrap() per run, set_len(len), RLVector::from *)
+| RRL (len : N) (runs : list (N * N))
+(* a value REACHED by a history of safe calls from RawVector::new() / IntVector::new(w0) (replayed by Model/Hist.v) *)
+| RRawH (ops : list SDS.Spec.SeqSpec.rop)
+| RIvH (w0 : N) (ops : list SDS.Spec.SeqSpec.iop).     (* RLBuilder: try_set(start, length).unwrap() per run, set_len(len), RLVector::from *)
+
+(* the history operations and the huge arguments under the short names the case files use (as in Check/C08.v) *)
+Definition MX : N := 18446744073709551615.
+Definition MX1 : N := 18446744073709551614.
+Definition H63 : N := 9223372036854775808.
+Definition HWithLen := SDS.Spec.SeqSpec.RWithLen.
+Definition HResize := SDS.Spec.SeqSpec.RResize.
+Definition HClear := SDS.Spec.SeqSpec.RClear.
+Definition HReserve := SDS.Spec.SeqSpec.RReserve.
+Definition HCompl := SDS.Spec.SeqSpec.RComplement.
+Definition HPushBit := SDS.Spec.SeqSpec.RPushBit.
+Definition HPopBit := SDS.Spec.SeqSpec.RPopBit.
+Definition HSetBit := SDS.Spec.SeqSpec.RSetBit.
+Definition HBit := SDS.Spec.SeqSpec.RBit.
+Definition HCount := SDS.Spec.SeqSpec.RCountOnes.
+Definition JWithLen := SDS.Spec.SeqSpec.IWithLen.
+Definition JFrom := SDS.Spec.SeqSpec.IFrom.
+Definition JGet := SDS.Spec.SeqSpec.IGet.
+Definition JSet := SDS.Spec.SeqSpec.ISet.
+Definition JPush := SDS.Spec.SeqSpec.IPush.
+Definition JPop := SDS.Spec.SeqSpec.IPop.
+Definition JResize := SDS.Spec.SeqSpec.IResize.
+Definition JClear := SDS.Spec.SeqSpec.IClear.
+Definition JReserve := SDS.Spec.SeqSpec.IReserve.
+Definition JPack := SDS.Spec.SeqSpec.IPack.
+Definition JExtend := SDS.Spec.SeqSpec.IExtend.
+Definition JCount := SDS.Spec.SeqSpec.ICountOnes.
 
 Definition sp_of (path : N) : selpath := if path =? 0 then Pdep else Portable.
 Definition mode_of (dbg : bool) : mode := if dbg then Debug else Release.
@@ -39,8 +70,19 @@ Fixpoint build (sp : selpath) (m : mode) (t : ty) (r : recipe) : option (interp 
                | ROpt (Some r') => match build sp m t' r' with Some x => Some (Some x) | None => None end
                | _ => None
                end
-  | TRaw => match r with RRaw len words => Some (mkraw len words) | _ => None end
-  | TIntVec => match r with RIv len width words => Some (mkiv len width (mkraw (len * width) words)) | _ => None end
+  | TRaw => match r with
+            | RRaw len words => Some (mkraw len words)
+            | RRawH ops => match SDS.Model.Hist.rrun raw_new ops with Ok (x, _) => Some x | _ => None end
+            | _ => None
+            end
+  | TIntVec => match r with
+               | RIv len width words => Some (mkiv len width (mkraw (len * width) words))
+               | RIvH w0 ops => match iv_new w0 with
+                                | Some v0 => match SDS.Model.Hist.irun v0 ops with Ok (x, _) => Some x | _ => None end
+                                | None => None
+                                end
+               | _ => None
+               end
   | TRank => match r with RRank len words => ok_opt (rank_new (bv_from_raw (mkraw len words))) | _ => None end
   | TSelect => match r with
                | RSel compl len words =>
